@@ -1,7 +1,8 @@
 #!/bin/sh
-# usage: tools/eval_seeded.sh <prop> <A|B> [vectors-tags]  -> confirm + run the property's quick check against the change
-p=$1; v=$2; vec=$3
-d=/tmp/wt/$p/_seeded/$v
+# usage: tools/eval_seeded.sh <prop> <variant dir name> [vectors-tags] [base dir]
+# confirm the seeded change independently, then run the property's quick check against it
+p=$1; v=$2; vec=$3; base=${4:-/tmp/wt2}
+d=$base/$p/_seeded/$v
 [ -f $d/patch.diff ] || { echo "$p/$v: no patch"; exit 0; }
 c=$(/verif/tools/confirm_seeded.sh $d $vec 2>&1 | tail -1)
 out=$(/verif/tools/try_seeded.sh $d/patch.diff $p --tier quick 2>&1)
